@@ -446,12 +446,12 @@ BEHAVIOURS = ["ok", "refuse", "eof", "reset", "garbage"]
 BAD_KINDS = ["live", "intercepted", "tcp", "no_content", "websocket", "dns"]
 
 
-def _t2_flow(i, edited_before=False):
+def _t2_flow(i, edited_before=False, empty_body=False):
     from mitmproxy.test import tflow
     f = tflow.tflow(live=False, resp=True)
     f.request.host, f.request.port = f"h{i}.test", 80
     f.request.path = f"/p{i}"
-    f.request.content = b"data%d" % i
+    f.request.content = b"" if empty_body else b"data%d" % i
     if edited_before:
         f.backup()                      # what the UI does before an edit
         f.request.path = f"/p{i}-edited"
@@ -484,7 +484,7 @@ def _t2_snap(f):
     return (f.request.get_state() if f.request else None, f.response.get_state() if f.response else None, f.error.get_state() if f.error else None, f.is_replay, f.websocket is None)
 
 
-def _t2_replay_run(behaviours, bad=None, bad_pos=0, action=None, action_at=0, edited=()):
+def _t2_replay_run(behaviours, bad=None, bad_pos=0, action=None, action_at=0, edited=(), empty=()):
     """behaviours[i]: what the fake upstream does for replayable flow i. bad: kind of an unreplayable flow inserted at bad_pos of the submission.
     action in {None, "stop", "submit_late", "resubmit_inflight"} performed while flow number action_at is in flight at the server."""
     import asyncio
@@ -493,7 +493,7 @@ def _t2_replay_run(behaviours, bad=None, bad_pos=0, action=None, action_at=0, ed
     from mitmproxy.addons.proxyserver import Proxyserver
     from mitmproxy.test import taddons
     n = len(behaviours)
-    flows = [_t2_flow(i, edited_before=i in edited) for i in range(n)]
+    flows = [_t2_flow(i, edited_before=i in edited, empty_body=i in empty) for i in range(n)]
     late = n - 1 if action == "submit_late" and n > 1 else None     # the last flow is submitted while an earlier one is in flight
     obs = dict(arrivals=[], overlaps=[], finished=[], activity=0, pending=[], writers=[], handlers=[], hang=False, crash=None, qsize_after_submit=None, log=[])
     by_path = {f"/p{i}": i for i in range(n)}
@@ -746,8 +746,9 @@ def bounded(tier, seed):
     # flows that were edited before being submitted (they carry a backup): stop must still restore the pre-replay state
     chosen += [(("ok", "ok"), None, 0, "stop", 0, (1,)), (("ok", "ok", "ok"), None, 0, "stop", 0, (1, 2)), (("ok", "ok"), None, 0, "stop", 0, ())]
     for beh, bad, p, act, k, edited in chosen:
-        inp = {"upstream": list(beh), "unreplayable": bad, "unreplayable_at": p, "action": act, "while_flow_at_server": k, "edited_before": list(edited)}
-        obs = _t2_replay_run(beh, bad, p, act, k, edited)
+        empty = (len(beh) - 1,) if (len(beh) + (k if act else 0)) % 3 == 0 else ()     # some flows have an empty (but present) body: replayable
+        inp = {"upstream": list(beh), "unreplayable": bad, "unreplayable_at": p, "action": act, "while_flow_at_server": k, "edited_before": list(edited), "empty_body": list(empty)}
+        obs = _t2_replay_run(beh, bad, p, act, k, edited, empty)
         b.case((beh, bad, p, act, k, edited), nontrivial=len(beh) > 1 or act is not None)
         _t2_replay_check(b, obs, inp, beh, act, edited)
     return b
